@@ -413,11 +413,17 @@ func (m *storageModel) add(a netip.Addr, names []string) {
 
 var (
 	probeAddrs = []netip.Addr{netip.MustParseAddr("1.2.3.4"), netip.MustParseAddr("::1"), netip.MustParseAddr("9.9.9.9")}
-	probeNames = []string{"a", "A", "b", "B", "zz", "ö", "Ö"}
+	probeNames = []string{"a", "A", "b", "B", "zz", "ö", "Ö", "\u212ax", "kx", "\u023ab", "\u023ac", "\u2c65b", "x\u023a", "\u0130x", "i\u0307x"}
 )
 
 // diff compares every observer of ds with the model; "" means equal.
-func (m *storageModel) diff(ds *hostsfile.DefaultStorage) string {
+func (m *storageModel) diff(ds *hostsfile.DefaultStorage) (out string) {
+	defer func() {
+		if r := recover(); r != nil {
+			out = fmt.Sprintf("an observer (ByAddr / ByName / Range*) panicked: %v", r)
+		}
+	}()
+
 	addrProbes := append([]netip.Addr(nil), probeAddrs...)
 	for a := range m.names {
 		addrProbes = append(addrProbes, a)
@@ -680,6 +686,7 @@ func main() {
 				Parse   *parseCase   `json:"parse"`
 				Storage *storageCase `json:"storage"`
 				Chain   []any        `json:"chain"`
+				Unicode []int        `json:"unicode"`
 			}
 			if err := json.Unmarshal(c.Replay, &w); err != nil {
 				runlib.EngineErrorf("replay: %v", err)
@@ -695,6 +702,10 @@ func main() {
 			case w.Storage != nil:
 				if v, what, _ := runStorage(*w.Storage, w.Storage.ObserveEvery); v != "" {
 					c.Violation("DefaultStorage/"+v, what, w)
+				}
+			case len(w.Unicode) > 0:
+				if what := runUnicode(w.Unicode); what != "" {
+					c.Violation("DefaultStorage/unicode-width", what, w)
 				}
 			case len(w.Chain) == 3:
 				k, _ := w.Chain[0].(float64)
@@ -773,6 +784,47 @@ func main() {
 			exploreParse(parseCase{Data: h, Dst: 0, Named: false, BufCap: -1, Inject: true}, 1, "parse-long-read-error")
 		}
 
+		// Long lines: a record of 4095..4097, 8191..8193 and 20000 bytes (past
+		// the scanner's initial buffer and its doublings) as the first, a middle
+		// or the last line, terminated by LF, CRLF or nothing.
+		for _, total := range []int{4095, 4096, 4097, 8191, 8192, 8193, 20000} {
+			var b strings.Builder
+			b.WriteString("1.2.3.4")
+			for i := 0; b.Len()+12 < total; i++ {
+				fmt.Fprintf(&b, " h%06d.ex", i)
+			}
+
+			for b.Len() < total {
+				b.WriteString("x")
+			}
+
+			line := b.String()
+			for pos := 0; pos < 3; pos++ {
+				for _, term := range []string{"\n", "\r\n", ""} {
+					var in string
+					switch pos {
+					case 0:
+						in = line + "\n::1 after\n"
+						if term == "" {
+							continue
+						}
+					case 1:
+						in = "::1 before\n" + line + term + "::2 after\n"
+						if term == "" {
+							continue
+						}
+					default:
+						in = "::1 before\r\n# comment\n" + line + term
+					}
+
+					h := enum.Hex(in)
+					exploreParse(parseCase{Data: h, Dst: 0, Named: true, BufCap: -1}, 0, "parse-long-lines")
+					exploreParse(parseCase{Data: h, Dst: 1, Named: false, BufCap: 16}, 0, "parse-long-lines")
+					exploreParse(parseCase{Data: h, Dst: 2, Named: false, BufCap: -1}, 0, "parse-long-lines")
+				}
+			}
+		}
+
 		// Every way of cutting the stream into reads (free), plus at most one
 		// decoration ((0,nil) read, data together with EOF).
 		for _, in := range short {
@@ -812,6 +864,23 @@ func main() {
 			c.SampleEvery(100_003, func() any { return sc.String() })
 		})
 
+		// Names with letters whose lower-case form has another UTF-8 width
+		// (KELVIN SIGN -> k, U+0130 -> i + combining dot, U+023A -> U+2C65):
+		// every sequence of <= 3 records over them.
+		enum.SeqsN(len(uniNames)*2, 1, 3, func(seq []int) {
+			if !sh.Mine() {
+				return
+			}
+
+			c.Eval()
+			c.Family("storage-unicode-width")
+			if what := runUnicode(seq); what != "" {
+				c.Violation("DefaultStorage/unicode-width", what, map[string]any{"unicode": append([]int(nil), seq...)})
+			}
+
+			c.NontrivialInjective()
+		})
+
 		// Long chains: up to 12 distinct addresses under one name and up to 12
 		// distinct names under one address (beyond any small-size shortcut),
 		// then every earlier element added again in another letter case.
@@ -834,6 +903,34 @@ func main() {
 			}
 		}
 	})
+}
+
+var uniNames = [][]string{{"\u212ax"}, {"kx"}, {"\u023ab"}, {"\u023ac"}, {"\u2c65b"}, {"x\u023a"}, {"\u0130x", "kx"}, {"\u212ax", "\u023ab"}}
+
+// runUnicode adds the records seq (index = 2*names + address) and compares.
+func runUnicode(seq []int) (what string) {
+	ds, _ := hostsfile.NewDefaultStorage()
+	m := newStorageModel()
+	var desc []string
+	pv, _ := runlib.Try(func() {
+		for _, i := range seq {
+			a, names := probeAddrs[i%2], uniNames[i/2]
+			desc = append(desc, fmt.Sprintf("Add(%s %q)", a, names))
+			ds.Add(&hostsfile.Record{Addr: a, Names: append([]string(nil), names...)})
+			m.add(a, names)
+		}
+	})
+	if pv != nil {
+		what = fmt.Sprintf("panicked: %v", pv)
+	} else if pv2, _ := runlib.Try(func() { what = m.diff(ds) }); pv2 != nil {
+		what = fmt.Sprintf("observer panicked: %v", pv2)
+	}
+
+	if what != "" {
+		what = strings.Join(desc, " ") + ": " + what
+	}
+
+	return what
 }
 
 // runChain adds k distinct addresses under one name (byName) or k distinct
